@@ -20,6 +20,14 @@ THRIFT_RT = ["common", "protos", "ref_thrift", "l0", "insts_l0", "l1", "insts_l1
 PB_RT = ["common", "ref_thrift", "ref_pb", "pb", "insts_pb"]
 
 PROPS = {
+    "C09": dict(
+        modules=["common", "protos", "ref_thrift", "l0", "l1", "total", "insts_c09"],
+        outside="inputs longer than the per-reader bound (<= 17 bytes); whole emitted decoders on arbitrary bytes (only skeleton+corruption, see harness names); stack depth of recursive schemas; the async readers (C12)",
+    ),
+    "C07": dict(
+        modules=["common", "protos", "ref_thrift", "l0", "l1", "skip", "insts_c07"],
+        outside="containers with more than 2 elements, binaries longer than 2 bytes, adversarial input below depth 1, nesting deeper than 3 (10 for the iterative unchecked skipper); the 64/65 depth boundary itself (read from the source: skip() passes the constant 64 and each level decrements once); the async skipper is covered under C12",
+    ),
     "C05": dict(
         modules=PB_RT,
         outside="repeated fields with more than 2 elements, strings/bytes longer than 3, maps with more than 1 entry, hash maps (ahash RandomState needs getrandom), messages beyond the corpus; tags above 2047 for the quick tier of scalar modules (all tags in thorough and for the key codec)",
